@@ -84,7 +84,7 @@ LIST_OK = [
 ]
 
 OVERLAP = dict(
-    props=['C04', 'C02'], shards=12,
+    props=['C04', 'C02', 'C14'], shards=12,
     where='loop[3]', locals={LST: 'list[LineObject]', 'last_line': 'LineWithBytes?', 'lobj': 'LineObject'},
     requires=LIST_OK + ['last_line is None',
                         all_lines(f'implies(is_bytes_line({Lj}), len({Lj}._bytes) == 0)')],
@@ -121,5 +121,5 @@ OVERLAP_INV = dict(
         all_lines('implies(last_line is not None, a_of(last_line) <= a_of(' + Lj + ') and last_line != ' + Lj + ')', lo='i'),
     ])
 
-contract(ENG, props=['C02', 'C04', 'C05'], name='engine', blocks_only=True,
+contract(ENG, props=['C02', 'C04', 'C05', 'C14'], name='engine', blocks_only=True,
          blocks={'place': PLACE, 'overlap': OVERLAP}, loops={'3': OVERLAP_INV})
